@@ -4,22 +4,55 @@ NA = {f"C{n:02d}": PENDING for n in range(1, 21)}
 NA["C16"] = ("behaviour lives in serde-derive output and an external (de)serialiser; the crate has no function to put under contract and "
              "macro-generated code is outside the verifier's dialect — contract-based verification cannot express or decide it")
 
+
+_T = "contract-based deductive verification (Verus) of functions extracted mechanically from /repo/src on every run"
+_NOTE = ("Trusted: Verus+Z3 and vstd's std specs; usize=64 bit; GAT lifetimes erased (D1) so borrow checking stays rustc's job; "
+         "assumed contract of from_utf8_unchecked; axiom 'Clone returns an equal value'; derive(Default) expansions modelled; "
+         "impl headers replaced by contract-carrying bounds; members outside the dialect (closures, iterator adapters, macros, FnMut history) are "
+         "dropped from the proof and listed in the evidence. Precondition of every push: fewer than 2^64 stored entries.")
+
 TEXT = {
-    "C05": dict(
-        level="Unbounded deductive proof (Verus) that Stride, IndexList, IndexOptimized and Vec implement exactly the pushed sequence: "
-              "per-function contracts over abstract Seq views, including the documented acceptance rule of Stride::push, rejection leaves the state untouched, "
-              "and absence of overflow/shift/index/unwrap panics (so checked and wrapping builds agree). Iteration/extend/heap_size are outside the dialect and bounded.",
-        ref="DESIGN.md §4 C05",
-        note="Trusted: Verus+Z3, vstd specs of Vec/Option/integer conversions, usize=64 bit, derive(Default/Clone/Copy) expansions modelled in the template, "
-             "GAT/iterator members dropped by the dialect (listed in evidence). Precondition: fewer than 2^64 stored elements.",
-        technique="contract-based deductive verification (Verus) of mechanically extracted functions; native boundary search + replay for counterexamples",
-    ),
-    "C19": dict(
-        level="Unbounded deductive proof (Verus) of the accounting clauses on top of C05: an entry is absorbed by the stride exactly when the documented rule accepts it "
-              "(then nothing is spilled), otherwise exactly one entry is appended to the spill list, to the u32 part iff no u64 entry exists yet and the value fits; "
-              "lemmas show dense 0,1,2,… and strided sequences are always absorbed.",
-        ref="DESIGN.md §4 C19",
-        note="Trusted: as C05; the link between the abstract cost (4·|smol| + 8·|chonk|) and the bytes heap_size reports is a bounded Kani harness, not part of the proof.",
-        technique="contract-based deductive verification (Verus): accounting postconditions + lemmas over the contracts",
-    ),
+    "C01": dict(level="Unbounded deductive proof that for OwnedRegion, StringRegion, Vec, MirrorRegion, ResultRegion and — generically in their type parameters — "
+                      "CollapseSequence, ConsecutiveIndexPairs, FlatStack, the index returned by push reads back the pushed abstract value (Push/Region trait contracts), and that "
+                      "ReadSlice/ReadColumns accessors describe exactly that item. Generic proofs cover every composition of regions satisfying the contracts. "
+                      "Push forms with closures (SliceRegion, OptionRegion, ColumnsRegion, tuples) and the codecs are outside the dialect.",
+                ref="DESIGN.md §4 C01", note=_NOTE, technique=_T + "; round trip as a lemma over push/index contracts"),
+    "C02": dict(level="Unbounded proof of the frame clause of every push contract (all previously issued indices stay issued and keep their value) and of the whole-view "
+                      "append postconditions of Stride/IndexList/IndexOptimized/Vec (covering stride→spill and u32→u64 switches); lemma_frame_star extends it to arbitrary histories.",
+                ref="DESIGN.md §4 C02", note=_NOTE, technique=_T + "; frame postconditions + induction lemma over histories"),
+    "C03": dict(level="Unbounded proof of FlatStack::{default,with_capacity,copy,get,len,is_empty,reserve,clear} against an abstract sequence view, generic over every region and "
+                      "every index container that satisfies the trait contracts (proved for Vec, IndexList, IndexOptimized); get proved fail-stop in a second reading. "
+                      "extend/from_iter/iterators are outside the dialect.",
+                ref="DESIGN.md §4 C03", note=_NOTE + " Fail-stop reading trusts the D7 models of panic and bounds checks.", technique=_T + " in a total and a fail-stop reading"),
+    "C04": dict(level="Unbounded proof that the single unsafe call (from_utf8_unchecked) has its safety precondition valid_utf8 discharged from StringRegion's invariant for every "
+                      "inner byte region, that all four accepted push forms store exactly encode_utf8 of the string, and that the wrappers (CollapseSequence, ConsecutiveIndexPairs, "
+                      "FlatStack) only pass issued indices down; plus a mechanical scan that `unsafe` occurs once and no other write path into StringRegion exists.",
+                ref="DESIGN.md §4 C04", note=_NOTE + " Serialisation (C16) is not covered.", technique=_T + "; unsafe precondition as proof obligation; program-text scan for write paths"),
+    "C05": dict(level="Unbounded deductive proof (Verus) that Stride, IndexList, IndexOptimized and Vec implement exactly the pushed sequence: per-function contracts over abstract Seq views, "
+                      "the documented acceptance rule of Stride::push, rejection leaves the state untouched, and absence of overflow/shift/index/unwrap panics (so checked and "
+                      "wrapping builds agree). Iteration/extend/heap_size are outside the dialect.",
+                ref="DESIGN.md §4 C05", note=_NOTE, technique=_T + "; native boundary search + replay for counterexamples"),
+    "C08": dict(level="Unbounded proof that clear() and default() both establish `fresh` (content and bookkeeping equal to the initial state, capacity not included) for the index "
+                      "containers, OwnedRegion, StringRegion, Vec, ResultRegion, SliceRegion, CollapseSequence (last_index == None), ConsecutiveIndexPairs (offsets == [0]) and FlatStack; "
+                      "push contracts determine index and new abstract state from the old abstract state and the item only.",
+                ref="DESIGN.md §4 C08", note=_NOTE, technique=_T + "; `fresh` postconditions on clear/default"),
+    "C10": dict(level="Unbounded proof that reserve/with_capacity of Vec, IndexList, IndexOptimized and FlatStack::{reserve,with_capacity} leave the abstract view unchanged (resp. empty, fresh). "
+                      "Region-level reserve_* / merge_* bodies (iterator adapters) are outside the dialect.",
+                ref="DESIGN.md §4 C10", note=_NOTE, technique=_T),
+    "C11": dict(level="Unbounded proof, generic in the inner region and item type, that CollapseSequence::push returns the previous index and leaves the inner region untouched exactly when "
+                      "last_index is Some(l) and the item equals the item at l, otherwise stores the item and remembers its index; clear/default forget the last index.",
+                ref="DESIGN.md §4 C11", note=_NOTE + " merge_regions / clone boundaries are outside the dialect.", technique=_T + " using vstd's PartialEqSpec as equality oracle"),
+    "C12": dict(level="Unbounded proof, generic in the dense inner region and the offset container, that ConsecutiveIndexPairs::push returns exactly the number of items pushed since "
+                      "default/clear, appends one offset, keeps the invariant (offsets start at 0, adjacent pairs are the inner indices), and index(k) reads the k-th item; "
+                      "ColumnsRegion::index returns a row read item with exactly row k's length and cells. Columns push forms are outside the dialect.",
+                ref="DESIGN.md §4 C12", note=_NOTE, technique=_T + "; debug_assert read as 'can never fire' (D6)"),
+    "C13": dict(level="Unbounded proof of ReadSliceInner/ReadSlice/ReadColumnsInner/ReadColumns::{get,len,is_empty} and FlatStack::get in two readings of the same bodies: "
+                      "total (i < len ⇒ no panic and the i-th element of this item) and fail-stop (normal return ⇒ i < len), down to Vec/IndexList/IndexOptimized indexing.",
+                ref="DESIGN.md §4 C13", note=_NOTE + " Fail-stop reading trusts the D7 models of panic and bounds checks.", technique=_T + " in a total and a fail-stop reading; native search + replay for counterexamples"),
+    "C19": dict(level="Unbounded proof of the accounting clauses on top of C05 (absorbed by the stride iff the documented rule accepts; otherwise exactly one entry spilled, 4 bytes while "
+                      "values fit u32 and no u64 entry exists, 8 bytes after) and of ConsecutiveIndexPairs' dense outward indices; lemmas show dense and strided sequences are always absorbed.",
+                ref="DESIGN.md §4 C19", note=_NOTE + " The link between abstract cost and the bytes heap_size reports is not part of the proof.", technique=_T + "; accounting postconditions + lemmas"),
+    "C20": dict(level="Unbounded proof that each forwarding Push impl (OwnedRegion: &[T;N], &&[T;N], &&[T], Vec<T>, &Vec<T>; StringRegion: String, &String, &&str; MirrorRegion/Vec: &T, &&T; "
+                      "ResultRegion: &Result) satisfies the canonical form's contract with an equal abstract value: same index, same stored content, same reads.",
+                ref="DESIGN.md §4 C20", note=_NOTE + " Forms with their own closure/iterator code path are outside the dialect.", technique=_T),
 }
